@@ -404,12 +404,11 @@ fn process_tcp_packet(
                 return Ok(observable_http_package);
             }
 
-            // Clean up on connection close
-            if tcp.get_flags()
-                & (pnet::packet::tcp::TcpFlags::FIN | pnet::packet::tcp::TcpFlags::RST)
-                != 0
-            {
-                debug!("Connection closed or reset");
+            // Clean up on connection reset. A FIN only closes the sender's half of the
+            // connection and may arrive before earlier segments of the same direction: the
+            // peer's message, and the rest of the sender's, can still follow it.
+            if tcp.get_flags() & pnet::packet::tcp::TcpFlags::RST != 0 {
+                debug!("Connection reset");
                 http_flows.remove(&flow_key);
             }
         }
